@@ -640,6 +640,10 @@ fn main() {
             it.ensures = o.ensures.clone();
             it.private = o.private;
             it.property = o.property.clone();
+            // a rule that changes the signature (R64: `impl Iterator<Item = T>` -> `Vec<T>`) belongs to the contract
+            if o.rules.iter().any(|r| r == "R64") && !it.rules.iter().any(|r| r == "R64") {
+                it.rules.push("R64".to_string());
+            }
         }
         resolved.push(it);
     }
